@@ -188,6 +188,31 @@ func judgeName(r reporter, key string, flags uint32, f rn.Field, msg []byte, wan
 
 var nameAlpha = []string{"a", "B", "é", "Σ"}
 
+// oemAlpha adds runes whose upper-case form has a different UTF-8 size (U+0131 shrinks to "I",
+// U+0250 grows to U+2C6F): only the OEM branch handles bytes rather than code units.
+var oemAlpha = []string{"a", "B", "é", "ı", "ɐ"}
+
+// judgeOEMField decides the part of "the descriptor designates the bytes of the name" that does not
+// depend on which OEM code page the library writes: a name without NUL has no NUL in its field, and
+// (every Windows OEM code page being a stateless per-character encoding) the field of a name is the
+// concatenation of the fields of its characters.
+func judgeOEMField(r reporter, key string, field []byte, name string, one func(string) ([]byte, bool), desc func() string) {
+	if rn.IsASCII(name) {
+		return // decided exactly by judgeName
+	}
+	var cat []byte
+	for _, ru := range name {
+		b, ok := one(string(ru))
+		if !ok {
+			return
+		}
+		cat = append(cat, b...)
+	}
+	r(key, bytes.IndexByte(field, 0) < 0 && bytes.Equal(field, cat), func() string {
+		return fmt.Sprintf("%s: the OEM field for %s is %x, but its characters written one at a time give %x (a NUL or a cut / shifted character in the field)", desc(), short(name), field, cat)
+	})
+}
+
 func judgeNegotiate(r reporter, prefix string, msg []byte, domain, workstation string, unicode bool, desc func() string) {
 	m, err := rn.ParseNegotiate(msg)
 	if r(prefix+"/readable", err == nil, func() string { return fmt.Sprintf("%s: %v; message = %s", desc(), err, vf.HexS(msg)) }); err != nil {
@@ -246,8 +271,12 @@ func negotiate(c *vf.Ctx) {
 	}
 	var cases []nc
 	for _, uni := range []bool{true, false} {
-		for _, d := range names {
-			for _, w := range names {
+		ns := names
+		if !uni {
+			ns = enum.Strings(oemAlpha, 2)
+		}
+		for _, d := range ns {
+			for _, w := range ns {
 				cases = append(cases, nc{d, w, uni})
 			}
 		}
@@ -284,6 +313,40 @@ func negotiate(c *vf.Ctx) {
 			return
 		}
 		judgeNegotiate(t.check2, "C08/negotiate", msg, k.d, k.w, k.uni, desc)
+		if m, perr := rn.ParseNegotiate(msg); !k.uni && perr == nil {
+			one := func(domain bool) func(string) ([]byte, bool) {
+				return func(ch string) ([]byte, bool) {
+					d, w := ch, ""
+					if !domain {
+						d, w = "", ch
+					}
+					var b []byte
+					ok := false
+					vf.Try(func() {
+						m1, e1 := ntlm.CreateNegotiateMessage(d, w, false)
+						if e1 != nil {
+							return
+						}
+						p1, e2 := rn.ParseNegotiate(m1)
+						if e2 != nil {
+							return
+						}
+						f := p1.Domain
+						if !domain {
+							f = p1.Workstation
+						}
+						b, ok = f.Slice(m1)
+					})
+					return b, ok
+				}
+			}
+			if b, ok := m.Domain.Slice(msg); ok {
+				judgeOEMField(t.check2, "C08/negotiate/DomainName/oem-field-is-its-characters-in-order", b, k.d, one(true), desc)
+			}
+			if b, ok := m.Workstation.Slice(msg); ok {
+				judgeOEMField(t.check2, "C08/negotiate/Workstation/oem-field-is-its-characters-in-order", b, k.w, one(false), desc)
+			}
+		}
 	})
 	c.Sample("negotiate", map[string]any{"domain": "aΣ", "workstation": "é", "useUnicode": true})
 }
@@ -389,7 +452,9 @@ func authenticate(c *vf.Ctx) {
 	if c.Thorough() {
 		pws = append(pws, "", "é")
 	}
-	tis := [][]byte{sampleTargetInfo()}
+	// an AV pair with an odd-sized value (a server is free to send one): every later offset becomes odd
+	oddTI := rn.EncodeAvPairs([]rn.AvPair{{ID: 2, Value: rc.UTF16LE("DOM")}, {ID: 9, Value: []byte{0x5a}}})
+	tis := [][]byte{sampleTargetInfo(), oddTI}
 	if c.Thorough() {
 		tis = append(tis, rn.EncodeAvPairs(nil))
 	}
@@ -409,6 +474,16 @@ func authenticate(c *vf.Ctx) {
 					}
 				}
 			}
+		}
+	}
+	// OEM names whose case mapping changes their UTF-8 size, one position at a time
+	for _, fl := range []uint32{rn.FlagNTLM | rn.FlagOEM, rn.FlagNTLM | rn.FlagOEM | rn.FlagESS | rn.FlagTargetInfo} {
+		var ti []byte
+		if fl&rn.FlagTargetInfo != 0 {
+			ti = sampleTargetInfo()
+		}
+		for _, n := range enum.Strings(oemAlpha, 2) {
+			cases = append(cases, authIn{fl, sc, ti, "U", "Password", n, "W"}, authIn{fl, sc, ti, "U", "Password", "D", n}, authIn{fl, sc, ti, n, "Password", "D", "W"})
 		}
 	}
 	nShort := len(cases)
@@ -465,6 +540,37 @@ func authenticate(c *vf.Ctx) {
 			return
 		}
 		judgeAuthenticate(t.check2, "C08/authenticate", msg, k, desc)
+		if a, perr := rn.ParseAuthenticate(msg); !uni && k.flags&rn.FlagOEM != 0 && perr == nil {
+			one := func(pos int) func(string) ([]byte, bool) {
+				return func(ch string) ([]byte, bool) {
+					args := [3]string{}
+					args[pos] = ch
+					var b []byte
+					ok := false
+					vf.Try(func() {
+						m1, e1 := ntlm.CreateAuthenticateMessage(chm, args[0], k.pw, args[1], args[2])
+						if e1 != nil {
+							return
+						}
+						p1, e2 := rn.ParseAuthenticate(m1)
+						if e2 != nil {
+							return
+						}
+						b, ok = [3]rn.Field{p1.User, p1.Domain, p1.Workstation}[pos].Slice(m1)
+					})
+					return b, ok
+				}
+			}
+			for pos, nf := range []struct {
+				n string
+				f rn.Field
+				v string
+			}{{"UserName", a.User, k.user}, {"DomainName", a.Domain, k.d}, {"Workstation", a.Workstation, k.w}} {
+				if b, ok := nf.f.Slice(msg); ok {
+					judgeOEMField(t.check2, "C08/authenticate/"+nf.n+"/oem-field-is-its-characters-in-order", b, nf.v, one(pos), desc)
+				}
+			}
+		}
 	})
 	c.Sample("authenticate", map[string]any{"domain": "aΣ", "workstation": "B", "user": "é", "flags": fmt.Sprintf("%#x", flagCombo(0b111101))})
 }
